@@ -697,6 +697,8 @@ def check_factories(ctx: Ctx):
                 args.append([0, 1]); exp_t += [0, 1]
             elif s == "I":
                 args.append([1, 3])
+            elif s == "M":
+                args.append([[1, 0, 0, 0], [0, 1, 0, 0], [0, 0, 0, 1], [0, 0, 1, 0]])
         g = getattr(gates, name)(*args)
         if list(g.target_indices) != exp_t or list(g.control_indices) != exp_c or [round(x, 9) for x in g.params] != [round(x, 9) for x in exp_p]:
             ctx.disagree("factory-signature", name, f"t={g.target_indices} c={g.control_indices} p={g.params}", str(sig))
